@@ -103,7 +103,9 @@ def run_job(job):
             skipped.append([eid, op, str(e)[:80]])
     # ---- (b) indexing and assignment through a multivector --------------------------------------
     idx_pool = [0, -1, slice(None), slice(1, None), slice(None, None, 2), (0,), (slice(None), 0), (1, slice(None)), (-1, -1),
-                (slice(0, 1), slice(None)), Ellipsis, (Ellipsis, 0)]
+                (slice(0, 1), slice(None)), Ellipsis, (Ellipsis, 0),
+                # advanced indexing: lists of ints, integer arrays, boolean masks (numpy returns copies for these)
+                [0, 1], [1, 0], 'intarray', 'mask']
     for ci in range(n // 2):
         eid = f"{job['prefix']}:i{ci}"
         shape = rng.choice([(3,), (2, 2), (4,), (2, 3), (3, 2)])
@@ -111,10 +113,18 @@ def run_job(job):
         x = array_mv(rand_keys(3), shape, cont)
         other = array_mv(rand_keys(2), shape, 'list')
         idx = rng.choice(idx_pool)
+        if idx == 'intarray':
+            idx = np.array([shape[0] - 1, 0])
+        elif idx == 'mask':
+            idx = np.array([rng.random() < 0.5 for _ in range(shape[0])])
+            if not idx.any():
+                idx[0] = True
         labels = np.arange(int(np.prod(shape))).reshape(shape)
         try:
             pos = np.asarray(labels[idx]).reshape(-1)
         except IndexError:
+            continue
+        if len(set(int(p) for p in pos)) != len(pos):
             continue
         before = rec_arr(x)
         if rng.random() < 0.5:
